@@ -70,7 +70,7 @@ struct Ctx {
     const void *probe;      // probe element of search/find
     int mode;               // 1: sort (both args in the array), 2: search/find (probe, element)
     int cmpmag;
-    uint64_t cmp_calls, cmp_budget, swap_calls, cmp_scratch;
+    uint64_t cmp_calls, cmp_budget, swap_calls, cmp_scratch;   // calls within the current library call
 } X;
 
 inline uint32_t key_of(const void *p)
@@ -399,6 +399,7 @@ void vf_run(const uint8_t *data, size_t len)
             set_probe(k);
             ssize_t r;
             if (g_replay_mode == 1) TRACE("> find key=%u", k);
+            X.cmp_calls = 0;
             if (entry == E_RAW) LIB(r = cstl_raw_array_find(base, n, es, g_probe, hcmp, &X));
             else LIB(r = cstl_vector_find(&g_vec, g_probe, hcmp, &X));
             CHECK(r == (ssize_t)g_first[k], "C11.find", "find(key %u) on the unsorted input returned %zd, first match is at %d",
@@ -439,11 +440,11 @@ void vf_run(const uint8_t *data, size_t len)
         std::vector<uint32_t> sp = probes;
         subsample(sp, 1500);
         X.mode = 2;
-        X.cmp_calls = 0;
         for (uint32_t k : sp) {
             set_probe(k);
             ssize_t r;
             if (g_replay_mode == 1) TRACE("> search key=%u", k);
+            X.cmp_calls = 0;
             if (entry == E_RAW) LIB(r = cstl_raw_array_search(base, n, es, g_probe, hcmp, &X));
             else LIB(r = cstl_vector_search(&g_vec, g_probe, hcmp, &X));
             if (g_first[k] >= 0)
